@@ -115,6 +115,8 @@ Definition enc_key_gen (fz : bool) (mkl : N) (ty : sqltype) (maxLen : N) (v : sq
   | _ =>
     match ty, v with
     | TVarchar, VStr s | TBlob, VBlob s =>
+        (* len(strVal) > maxLen: `len s` is the number of BYTES of the Go string (a VARCHAR[n] column holds
+           n bytes, not n characters: the key slot below is maxLen bytes wide) *)
         if maxLen <? len s then Err EMaxLengthExceeded else
         (* make([]byte, 1+maxLen+EncLenLen); [0]=tag; copy(encv[1:], s); PutUint32(encv[len-4:], uint32(len)) *)
         Ok ([sq_KeyValPrefixNotNull] ++ s ++ zeros (maxLen - len s) ++ be_enc 4 (len s mod p32), len s)
